@@ -61,6 +61,7 @@ func init() {
 }
 
 type sessTable struct {
+	nextID                int32 // ids are per table (1, 2, ...), so that joins on id match across tables
 	rebuiltByCrashRestart bool // an index of this table was rebuilt by a crash-type restart
 	t                     *rm.Table
 	decl                  string // declared name (may differ in case)
@@ -163,7 +164,7 @@ func (s *sess) desc(what string) map[string]any {
 		}
 		tl = append(tl, fmt.Sprintf("%s(%s) via %s, %d rows", t.decl, strings.Join(cols, ", "), t.via, len(t.t.Rows)))
 	}
-	return map[string]any{"seed": s.env.Seed, "idx": s.idx, "memKB": s.memKB, "tables": tl, "at": what, "session_log": tailStr(s.log, 25)}
+	return map[string]any{"seed": s.env.Seed, "idx": s.idx, "memKB": s.memKB, "tables": tl, "at": what, "session_log": tailStr(s.log, sessLogLen())}
 }
 
 func (s *sess) createTable() bool {
@@ -220,7 +221,7 @@ func (s *sess) createTable() bool {
 func (s *sess) value(t *sessTable, col int) rm.Cell {
 	for {
 		v := gen.Value(s.r, t.t.Cols[col].K, false, false)
-		if t.idx[col] == "btree" && len(v.S) > 20 {
+		if t.idx[col] == "btree" && (len(v.S) > 20 || gen.BtreeExtremeInt(v)) {
 			continue
 		}
 		if gen.LitAccepted(v) {
@@ -246,8 +247,8 @@ func (s *sess) dml(n int) {
 			k := 1 + r.Intn(4)
 			var rows []rm.Row
 			for j := 0; j < k; j++ {
-				row := rm.Row{rm.Int(s.nextID)}
-				s.nextID++
+				t.nextID++
+				row := rm.Row{rm.Int(t.nextID)}
 				for ci := 1; ci < len(t.t.Cols); ci++ {
 					row = append(row, s.value(t, ci))
 				}
@@ -279,7 +280,7 @@ func (s *sess) dml(n int) {
 		}
 		var rr sqlx.Result
 		msg, panicked := guarded(func() { rr = s.db.Auto(sql) })
-		s.log = append(s.log, clipStr(sql, 140))
+		s.log = append(s.log, clipStr(sql, sessLogLen()*6))
 		s.res.Add("dml_statements", 1)
 		if panicked || rr.Err != nil || rr.Aborted {
 			s.dead = true
@@ -289,6 +290,33 @@ func (s *sess) dml(n int) {
 		t.t.Rows = after.Rows
 		s.snapshot(clipStr(sql, 100))
 	}
+}
+
+// bulk inserts n rows into t with multi-row INSERT statements.
+func (s *sess) bulk(t *sessTable, n int) {
+	for i := 0; i < n && !s.dead; i += 25 {
+		var rows []rm.Row
+		for j := i; j < i+25 && j < n; j++ {
+			t.nextID++
+			row := rm.Row{rm.Int(t.nextID)}
+			for ci := 1; ci < len(t.t.Cols); ci++ {
+				row = append(row, s.value(t, ci))
+			}
+			rows = append(rows, row)
+		}
+		sql, _ := sqlx.InsertSQL(t.t.Name, t.t.Cols, rows)
+		var rr sqlx.Result
+		msg, panicked := guarded(func() { rr = s.db.Auto(sql) })
+		if panicked || rr.Err != nil || rr.Aborted {
+			s.dead = true
+			s.res.Violate("dml-failed", s.tags, s.desc("bulk insert"), "bulk INSERT into %s failed: panic=%q err=%v aborted=%v", t.t.Name, msg, rr.Err, rr.Aborted)
+			return
+		}
+		t.t.Rows = append(t.t.Rows, rows...)
+		s.res.Add("dml_statements", 1)
+	}
+	s.log = append(s.log, fmt.Sprintf("bulk insert of %d rows into %s", n, t.t.Name))
+	s.snapshot("bulk insert")
 }
 
 // battery runs the query battery; returns query -> sorted canonical rows, plus whether an index-path answer was non-empty.
@@ -376,6 +404,28 @@ func (s *sess) battery() (map[string][]string, bool) {
 			exp = []rm.Row{}
 		}
 		run("join:"+a.t.Name+":"+b.t.Name, sql, exp, a)
+		// the same join with conditions on both sides (the optimizer then cannot use an index join: hash join with
+		// materialised build rows) and a wide select list (large temp tuples: several temp pages)
+		var sel []string
+		for _, c := range a.t.Cols {
+			sel = append(sel, a.t.Name+"."+c.Name)
+		}
+		for _, c := range b.t.Cols {
+			sel = append(sel, b.t.Name+"."+c.Name)
+		}
+		sql2 := fmt.Sprintf("SELECT %s FROM %s JOIN %s ON %s.id = %s.id WHERE %s.id >= 0 AND %s.id >= 0;", strings.Join(sel, ", "), a.t.Name, b.t.Name, a.t.Name, b.t.Name, a.t.Name, b.t.Name)
+		var exp2 []rm.Row
+		for _, ra := range a.t.Rows {
+			for _, rb := range b.t.Rows {
+				if ra[0].I == rb[0].I {
+					exp2 = append(exp2, append(ra.Clone(), rb...))
+				}
+			}
+		}
+		if exp2 == nil {
+			exp2 = []rm.Row{}
+		}
+		run("widejoin:"+a.t.Name+":"+b.t.Name, sql2, exp2, a)
 	}
 	return out, idxNonEmpty
 }
@@ -483,6 +533,12 @@ func sessCase(env *core.Env, idx int, prop string) *core.CaseResult {
 		nt := 1 + r.Intn(3)
 		for i := 0; i < nt && !s.dead; i++ {
 			s.createTable()
+		}
+		if r.Intn(3) == 0 {
+			// bulk fill: several hundred rows per table, so that heaps span many pages and hash-join build sides need several temp pages
+			for _, t := range s.tabs {
+				s.bulk(t, 250+r.Intn(350))
+			}
 		}
 		s.dml(10 + r.Intn(60))
 		cycles := 2 + r.Intn(3)
@@ -680,4 +736,11 @@ func readImage(path string) *rec.Image {
 	dbb, _ := os.ReadFile(path + ".db")
 	lgb, _ := os.ReadFile(path + ".log")
 	return &rec.Image{DB: dbb, Log: lgb}
+}
+
+func sessLogLen() int {
+	if os.Getenv("VERIF_FULLLOG") != "" {
+		return 1 << 20
+	}
+	return 25
 }
